@@ -9,6 +9,8 @@ RULE_MODULES = {
     'PDOCFG': 'rules.p_pdocfg',
     'EMCY': 'rules.p_emcy',
     'PARA': 'rules.p_para',
+    'RF5': 'rules.rf5_null',
+    'RF6': 'rules.rf6_index',
 }
 
 
@@ -25,6 +27,34 @@ def run_rule(rule, ctx, tier):
 
 
 PROPERTIES = {
+    'C01': {
+        'rules': ['RF6', 'RF5', 'SDO'],
+        'technique': 'interval abstract interpretation (widening/narrowing, guard refinement, parameter and field '
+                     'invariants) for every constant-extent subscript; non-null dataflow with bounded disjunction for every '
+                     'dereference of a nullable location; guard-before-use for SDO continuation handlers',
+        'explanation': 'Memory-safety clauses visible in the shape of the code: (1,2) every subscript of a constant-size '
+                       'array (frame bytes, PDO/SYNC/EMCY tables, service tables) is proven in range; (3) every dereference '
+                       'of a value loaded from a location the library itself nulls (timer lists, SYNC tables, mapping '
+                       'slots, dictionary lookups) is non-null on every path; (4) SDO continuation handlers reachable with '
+                       'no transfer open test srv->Obj before touching transfer state.',
+        'not_decided': 'the whole reachability claim (no sanitizer report on any history): SDO buffer cursor bounds across '
+                       'frames, undefined arithmetic, driver-fault sequences',
+    },
+    'C08': {
+        'rules': ['RF5'],
+        'technique': 'non-null dataflow with bounded disjunction over the timer list heads and links',
+        'explanation': 'RF5 on CO_TMR.{Use,Elapsed,Free,Acts} and the Next/Action links: the delete-while-elapsed clause '
+                       'needs COTmrRemove/COTmrDelete/COTmrInsert to tolerate an event that is not in the used list, an '
+                       'emptied event in the elapsed list and an exhausted event pool.',
+        'not_decided': 'interleaving semantics under preemption',
+    },
+    'C13': {
+        'rules': ['RF5', 'RF6'],
+        'technique': 'interval analysis of mapping-table subscripts, non-null dataflow on the synchronous-RPDO table',
+        'explanation': 'RF6: every subscript of CO_RPDO.Map/Size (including the dummy expansion Map[on+dummy]) and of the '
+                       'SYNC tables is in range; RF5: Sync.RPdo[i] is tested before it is dereferenced.',
+        'not_decided': 'field values written',
+    },
     'C04': {
         'rules': ['SDO'],
         'exhaustive': True,
@@ -74,7 +104,7 @@ PROPERTIES = {
         'not_decided': 'sequence semantics beyond the step guards',
     },
     'C14': {
-        'rules': ['PDOCFG'],
+        'rules': ['PDOCFG', 'RF6'],
         'exhaustive': True,
         'technique': 'decision-table extraction: each PDO parameter Write function folded over valid bit x count x target '
                      'existence x access flags x new value classes; verdict = stored / refused-with-nothing-stored',
@@ -123,7 +153,7 @@ PROPERTIES = {
         'not_decided': 'timeout timing',
     },
     'C12': {
-        'rules': ['RF3'],
+        'rules': ['RF3', 'RF6'],
         'explanation': 'Timer-handle typestate for CO_TPDO.EvTmr/InTmr and the verified invariant '
                        '"(Flags & I) == 0 <=> InTmr released" (establish / arm / release obligations).',
         'not_decided': 'emission timing multiset',
